@@ -60,8 +60,9 @@ class References:
 
   def _add_item_to_unconnected_group(self, item, append = True):
     item = gfapy.OrientedLine(item)
-    if isinstance(item.line, gfapy.Line):
-      item._set_line(item.name)
+    # (a new object: the one given may be an item of another group)
+    item = gfapy.OrientedLine(item.name \
+        if isinstance(item.line, gfapy.Line) else item.line, item.orient)
     if append:
       self.items.append(item)
     else:
